@@ -109,7 +109,7 @@ def design_jobs(ctx):
         jobs.append(("stack_mc4", "RAStackMC", stack_cfg(ctx, "stack_mc4", [4, 16], [4, 16], [1], [5], "MCDeltas", 4, 7), "ok", 6))
     else:
         jobs.append(("stack_mc", "RAStackMC", stack_cfg(ctx, "stack_mc", [4, 8, 12], [0, 4, 16], [1, 3], [5], "MCDeltas", 3, 12), "ok", 12))
-        jobs.append(("stack_mc4", "RAStackMC", stack_cfg(ctx, "stack_mc4", [4, 16], [4, 16], [0, 1], [5], "MCDeltas", 4, 8), "ok", 6))
+        jobs.append(("stack_mc4", "RAStackMC", stack_cfg(ctx, "stack_mc4", [4, 16], [4, 16], [1], [5], "MCDeltas", 4, 8), "ok", 6))
         jobs.append(("stack_mc_desc", "RAStackMC", stack_cfg(ctx, "stack_mc_desc", [4, 12], [0, 16], [1, 3], [5], "MCDeltas", 3, 12, variant="desc"), "ok", 4))
     small = dict(sizes=[4, 8, 12], aligns=[0, 4, 16], flags=[0, 1, 3], ucs=[5], deltas="MCDeltas", maxslots=3, maxops=8)
     for v in ("gapfix", "noalign", "argmove"):
@@ -179,7 +179,7 @@ def export_jobs(ctx):
     J = []
     # exhaustive short behaviours
     J.append(("stack", {"scale": 1, "tag": "model"}, "exp_stack", "RAStackMC",
-              stack_cfg(ctx, "exp_stack", [4, 12], [0, 16], [1, 3], [5], "MCDeltas", 2 if q else 3, 8 if q else 9, invs="", prop=False, view=False, export=True), None, None))
+              stack_cfg(ctx, "exp_stack", [4, 12] if q else [4, 12, 16], [0, 16], [1, 3], [5], "MCDeltas", 2, 8 if q else 9, invs="", prop=False, view=False, export=True), None, None))
     J.append(("stack", {"scale": 1, "tag": "model"}, "sim_stack", "RAStackMC",
               stack_cfg(ctx, "sim_stack", [1, 2, 4, 8, 12, 16, 24, 32, 64, 100], [0, 1, 2, 4, 8, 16, 32, 64], [0, 1, 2, 3], [1, 3, 9], "MCDeltasWide", 7, 18,
                         invs="ContractInv NeverFails GapsDead", prop=True, view=False, export=True), 150 if q else 1500, 22))
@@ -189,8 +189,8 @@ def export_jobs(ctx):
                   simple_cfg(ctx, f"exp_assign{nm}", "MCSpec", [f"MCpc <- Pc{nm}", f"MCwg <- Wg{nm}", "MaxOps = 3", 'Bug = "none"'], "AssignInv", export=True), None, None))
         J.append(("assign", {"pc": pc, "wg": wg}, f"sim_assign{nm}", "RAAssignMC",
                   simple_cfg(ctx, f"sim_assign{nm}", "MCSpec", [f"MCpc <- Pc{nm}", f"MCwg <- Wg{nm}", "MaxOps = 24", 'Bug = "none"'], "AssignInv", export=True), 60 if q else 500, 26))
-    J.append(("spans", {"inf": 5}, "exp_spans", "LiveSpansMC",
-              simple_cfg(ctx, "exp_spans", "MCSpec", ["U = 5", f"MaxOps = {3 if q else 4}", 'Variant = "head"'], "SpansInv Refines", export=True), None, None))
+    J.append(("spans", {"inf": 5 if q else 4}, "exp_spans", "LiveSpansMC",
+              simple_cfg(ctx, "exp_spans", "MCSpec", [f"U = {5 if q else 4}", f"MaxOps = {3 if q else 4}", 'Variant = "head"'], "SpansInv Refines", export=True), None, None))
     J.append(("spans", {"inf": 12}, "sim_spans", "LiveSpansMC",
               simple_cfg(ctx, "sim_spans", "MCSpec", ["U = 12", "MaxOps = 22", 'Variant = "head"'], "SpansInv Refines", export=True), 100 if q else 800, 24))
     J.append(("tied", {"wg": [0, 1]}, "exp_tied", "RATiedMC",
@@ -206,7 +206,7 @@ def export_jobs(ctx):
 
 def export_behaviours(ctx):
     scripts = collections.defaultdict(list)
-    cap = 1500 if ctx.quick else 12000
+    cap = 1500 if ctx.quick else 4000
 
     def one(job):
         comp, hdr, tag, mod, cfg, sim, depth = job
@@ -309,7 +309,7 @@ def run(ctx):
         sp = ctx.path(f"scripts_{comp}.ndjson")
         vlib.write_ndjson(sp, scs)
         jobs.append((comp, "model", ["script", comp, sp, ctx.path(f"trace_{comp}_model.ndjson")], ctx.path(f"trace_{comp}_model.ndjson"), ctx.seed))
-    nshard, nexec, steps = (2, 120, 40) if q else (6, 500, 60)
+    nshard, nexec, steps = (2, 120, 40) if q else (6, 250, 60)
     for comp in TRACE_MOD:
         for s in range(nshard):
             tp = ctx.path(f"trace_{comp}_r{s}.ndjson")
